@@ -32,12 +32,20 @@ SPECIAL = [b"endstream", b"endobj", b"stream", b"\r", b"\n", b"\r\n", b"\x00", b
            b"obj", b"1 0 obj", b"\x00" * 40, b"\xff" * 130, b"ab" * 20, b"trailer", b"%%EOF", b"z", b"\x00\x00\x00\x00"]
 
 
+MARKER_BYTES = [0, 1, 127, 128, 129, 254, 255, 10, 13, 0x7a, 0x7e, 0x75, 0x21, 0x3e, 0x3c]
+
+
 def payloads(max_size):
     return st.one_of(
         st.binary(max_size=max_size),
         st.lists(st.one_of(st.sampled_from(SPECIAL), st.binary(max_size=12)), max_size=30).map(
             lambda l: b"".join(l)[:max_size]),
         st.builds(lambda b, n: (b * n)[:max_size], st.binary(min_size=1, max_size=3), st.integers(1, 400)),
+        # runs of single bytes, with the bytes that the codecs use as markers over-represented (RunLength EOD 128 and
+        # the length bytes around it, ASCII85 z ~ u !, hex >, EOLs, 0 and 255)
+        st.lists(st.tuples(st.one_of(st.sampled_from(MARKER_BYTES), st.integers(0, 255)),
+                           st.sampled_from([1, 1, 2, 2, 3, 4, 5, 127, 128, 129, 130, 257])), max_size=12).map(
+            lambda l: b"".join(bytes([b]) * n for b, n in l)[:max_size]),
     )
 
 
